@@ -161,6 +161,48 @@ def pretty_threads(ctx):
     return len(cases), found
 
 
+def wildcard_blowup(ctx):
+    """Deterministic side workload (san flavour of drv_fmt): rule lists with many wildcards separated by text that repeats in the probed
+    category and a tail that never matches - the inputs on which a backtracking matcher needs C(n, k) steps.  All within the 256-byte
+    bounds of the property.  The reference finishes each in microseconds; a case that has not finished after 90 s of wall clock (four
+    to five orders of magnitude more) does not terminate for practical purposes.  Returns (cases, violations)."""
+    import random
+    from .. import fmtdrv
+    from . import c15
+    rnd = random.Random(ctx.seed * 37 + 14)
+    cases = []
+    for k in [2, 3, 5, 8, 12, 20, 40, 64]:
+        for unit, n in (("a", 250), ("ab", 120), (".x", 100), ("a", 60)):
+            sep = "*" + unit
+            tail = rnd.choice(["b", ".end", "Z", "=", "a" + "b"])
+            rule = (sep * k + "*" + tail)[:240]
+            text = rule + "=false\n" + ("*" * min(k, 20)) + "zz=false;" + rule + ".debug=true"
+            probes = [(unit * n, rnd.randrange(5)), (unit * n + tail[:-1], rnd.randrange(5)), (unit * (n // 2) + "x" + unit * (n // 2), rnd.randrange(5)),
+                      (unit * n + tail, rnd.randrange(5))]
+            probes = [(c[:255], t) for c, t in probes if all(0x20 < ord(ch) < 0x7f for ch in c)]
+            cases.append((text, False, probes))
+    lines = [c15.case_line(i, c) for i, c in enumerate(cases)]
+    results, crashes = fmtdrv.run_cases(ctx, "san", lines, chunk=1, timeout=90)
+    found = []
+    crashed = set()
+    for cid, line, kind, err in crashes:
+        crashed.add(cid)
+        if kind != "skipped":
+            found.append(("C14:catfilter-wildcards:%s" % kind, "rules %r :: %s" % (cases[int(cid)][0][:120], err[-800:]),
+                          {"target": "wildcard-blowup", "line": lines[int(cid)], "input_hex": ""}))
+    for i, c in enumerate(cases):
+        if str(i) in crashed:
+            continue
+        rules = c15.parse_rules(c[0])
+        exp = [1 if c15.decide(rules, cat, c15.TYPE_SUFFIX[t] if t < 4 else None) else 0 for cat, t in c[2]]
+        got = [int(x) for x in results[str(i)][:len(exp)]]
+        # the verdicts themselves are C15's subject; here they only show that the run really evaluated the rules
+        if len(got) != len(exp):
+            found.append(("C14:catfilter-wildcards:truncated-output", "rules %r: %d of %d verdicts" % (c[0][:120], len(got), len(exp)),
+                          {"target": "wildcard-blowup", "line": lines[i], "input_hex": ""}))
+    return len(cases), found
+
+
 def memcheck_replay(ctx):
     """Replay the kept corpus inputs through a gcc build of the same targets under valgrind memcheck (different mechanism than ASan:
     no red zones, no quarantine limit).  Invalid reads/writes/frees with a qtlogger frame are violations; uninitialised-value reports
@@ -206,12 +248,13 @@ def run(ctx):
     exe = build.ensure_fuzz()
     if ctx.replay:
         rep = json.load(open(ctx.replay))["case"]
-        if rep.get("target") == "pretty-threads":
+        if rep.get("target") in ("pretty-threads", "wildcard-blowup"):
             from .. import fmtdrv
-            results, crashes = fmtdrv.run_cases(ctx, "san", [rep["line"]], chunk=1)
+            blow = rep["target"] == "wildcard-blowup"
+            results, crashes = fmtdrv.run_cases(ctx, "san", [rep["line"]], chunk=1, timeout=90 if blow else 900)
             for cid, line, kind, err in crashes:
-                ctx.violation("C14:pretty-threads:%s" % kind, err[-1500:], rep)
-            return ctx.finish({"evaluations": 1, "distinct_nontrivial": 0, "rule": "replay", "samples": ["pretty-threads"]}, [], min_evals=1,
+                ctx.violation("C14:%s:%s" % ("catfilter-wildcards" if blow else "pretty-threads", kind), err[-1500:], rep)
+            return ctx.finish({"evaluations": 1, "distinct_nontrivial": 0, "rule": "replay", "samples": [rep["target"]]}, [], min_evals=1,
                               min_distinct=0)
         d = os.path.join(ctx.tmp, "replay")
         os.makedirs(d)
@@ -277,6 +320,9 @@ def run(ctx):
     n_pt, found_pt = pretty_threads(ctx)
     for key, what, case in found_pt:
         ctx.violation(key, what, case)
+    n_wb, found_wb = wildcard_blowup(ctx)
+    for key, what, case in found_wb:
+        ctx.violation(key, what, case)
     if any(v["execs"] == 0 for v in per.values()) and not ctx.violations:
         raise core.Inconclusive("a fuzz target executed nothing: %s" % per)
     cov = {
@@ -289,6 +335,7 @@ def run(ctx):
         "per_target": per,
         "observations_slow_or_oom": observations,
         "pretty_formatter_many_threads_cases": n_pt,
+        "category_rules_many_wildcards_cases": n_wb,
         "memcheck_replayed_inputs": n_mc, "memcheck_uninitialised_value_reports_not_judged": uninit,
         "scope": "patterns asking for a field of >= 100000 characters (six consecutive digits) are rejected by the target: resource exhaustion "
                  "as requested, not memory unsafety",
